@@ -22,6 +22,8 @@ SendClause(e) ==
         ELSE <<"ok", "">>)
   ELSE IF e.exc # "none" THEN <<"C01.Reject", "valid payload raised " \o e.exc>>
   ELSE IF \E i \in 1..Len(air) : air[i].data # data THEN <<"C02.OnlyOwnPayload", "foreign payload on air during the call">>
+  ELSE IF e.lossfree /\ ~(\E i \in 1..Len(air) : air[i].new)
+       THEN <<"C01.Delivered", "compatible configuration, listening peer, loss-free medium: the payload never reached the peer">>
   ELSE IF e.api = "write" THEN                                   \* non-blocking: only content / pipe / order matter
        (IF ~Emitted(air, data) THEN <<"C01.Content", "write() put nothing on the air">> ELSE <<"ok", "">>)
   ELSE IF Truthy(e.res) # Done(air, data) THEN
@@ -47,6 +49,8 @@ SendListClause(e) ==
   ELSE IF e.exc # "none" THEN <<"C01.Reject", "valid payloads raised " \o e.exc>>
   ELSE IF e.res.t # "list" \/ Len(e.res.v) # n THEN <<"C02.ListShape", "result is not one entry per payload">>
   ELSE IF \E k \in 1..Len(air) : \A i \in 1..n : air[k].data # D[i] THEN <<"C02.OnlyOwnPayload", "foreign payload on air">>
+  ELSE IF e.lossfree /\ (\E i \in 1..n : ~\E k \in 1..Len(air) : air[k].data = D[i] /\ air[k].new)
+       THEN <<"C01.Delivered", "compatible configuration, listening peer, loss-free medium: a payload of the list never reached the peer">>
   ELSE IF \E i \in 1..n : Truthy(e.res.v[i]) # Done(Sub(i), D[i]) THEN <<"C02.TrueIffDone", "list result contradicts the air">>
   ELSE IF \E i \in 1..n : ~Truthy(e.res.v[i]) /\ Len(Sub(i)) # Attempts(C, e.fr) THEN <<"C02.FalseIffExhausted", "list element gave up early">>
   ELSE IF \E i, j \in 1..n : i < j /\ Sub(i) # <<>> /\ Sub(j) # <<>> /\ FirstIdx(j) < FirstIdx(i)
